@@ -179,6 +179,15 @@ Fixpoint streams_ok (c : case) (cs : list cinfo) (o : list bytes) : bool :=
   | _, _ => false
   end.
 
+Fixpoint streams_log_ok (c : case) (cs : list cinfo) (o : list bytes) : bool :=
+  match cs, o with
+  | [], [] => true
+  | i :: cs', s :: o' => stream_log_ok (expect_of c i) s && streams_log_ok c cs' o'
+  | _, _ => false
+  end.
+(* the log against the harness's expectations: a predicate on the case alone *)
+Definition harness_ok (c : case) : bool := forallb (fun i => log_harness_ok (expect_of c i)) (c_clients c).
+
 (* the property in executable form, evaluated on an observed output *)
 Definition spec_ok (c : case) (o : OUT) : bool :=
   o_served o && o_quiet o && obs_ok (o_obs o) && streams_ok c (c_clients c) (o_streams o).
